@@ -100,8 +100,8 @@ def evaluate(wm, knobs, plan, ctx):
     # expected from the edit diff
     expected = collections.Counter()
     ntok = 0
-    srcs = sorted(set(wm["files"]) | {p for p in wm["extra"] if p.startswith("proj/src/") and p.endswith(".rs")
-                                       and p != "proj/src/not_text.rs"})
+    srcs = sorted(set(wm["files"]) | {p for p, e in wm["extra"].items() if p.startswith("proj/src/") and p.endswith(".rs")
+                                       and p != "proj/src/not_text.rs" and e["t"] == "f"})
     for p in srcs:
         b = edt["before"][p]["data"]
         a = edt["after"][p]["data"]
